@@ -2,6 +2,7 @@ package storepbt
 
 import (
 	"fmt"
+	"math"
 
 	"github.com/resonatehq/resonate/internal/kernel/t_aio"
 	"github.com/resonatehq/resonate/pkg/idempotency"
@@ -13,8 +14,8 @@ import (
 
 // tiny pools: every guard is hit from every reachable state
 var (
-	pidPool   = []string{"p1", "p2", "pa/b", "q", "zk", "Zk"} // "zk"/"Zk": ids are compared exactly (no pattern of queryPool tells them apart other than "*")
-	cbPool    = []string{"c1", "c2", "t1"} // "t1" collides with a task id on purpose (CreateTasks natural error)
+	pidPool   = []string{"p1", "p2", "pa/b", "q", "zk", "Zk"}           // "zk"/"Zk": ids are compared exactly (no pattern of queryPool tells them apart other than "*")
+	cbPool    = []string{"c1", "c2", "t1"}                              // "t1" collides with a task id on purpose (CreateTasks natural error)
 	taskPool  = []string{"t1", "t2", "c1", "__invoke:p1", "__invoke:q"} // the last two: a task row may already carry the id a later create-with-task derives
 	schedPool = []string{"s1", "s2", "sx"}
 	resPool   = []string{"r1", "r2"}
@@ -68,6 +69,16 @@ func (g G) time(l string) int64 {
 	}
 	return v * 10
 }
+
+// ttl: mostly a few ticks; one in eight is a lease the 32-bit gRPC field cannot carry but the HTTP body can (2^31 ms), the
+// largest int64 (clock + ttl never fits) or a value that fits for a small clock and not for an epoch one
+func (g G) ttl(l string) int64 {
+	if g.uni(8, l+".huge") == 7 {
+		return []int64{1 << 31, math.MaxInt64, math.MaxInt64 - 40, math.MaxInt64 - 1_700_000_000_500}[g.uni(4, l+".hugev")]
+	}
+	return int64(g.uni(3, l)) * 10
+}
+
 func (g G) key(l string) *idempotency.Key {
 	k := g.pick(keyPool, l)
 	if k == "" {
@@ -134,7 +145,7 @@ func (g G) createPromise() *t_aio.CreatePromiseCommand {
 }
 
 func (g G) createTask() *t_aio.CreateTaskCommand {
-	c := &t_aio.CreateTaskCommand{Id: g.pick(taskPool, "tid"), Recv: []byte(`"poll://g"`), Mesg: g.mesg("mesg"), Timeout: g.time("ttimeout"), State: task.Init, Ttl: g.uni(3, "ttl") * 10, ExpiresAt: g.time("texp"), CreatedOn: g.time("tcreated")}
+	c := &t_aio.CreateTaskCommand{Id: g.pick(taskPool, "tid"), Recv: []byte(`"poll://g"`), Mesg: g.mesg("mesg"), Timeout: g.time("ttimeout"), State: task.Init, Ttl: int(g.ttl("ttl")), ExpiresAt: g.time("texp"), CreatedOn: g.time("tcreated")}
 	if g.uni(3, "claimed") == 0 {
 		p := g.pick(procPool, "proc")
 		c.State, c.ProcessId = task.Claimed, &p
@@ -245,7 +256,7 @@ func (g G) Command() *t_aio.Command {
 			comp = &v
 		}
 		st := []task.State{task.Init, task.Enqueued, task.Claimed, task.Completed, task.Timedout}[g.uni(5, "tstate")]
-		c.UpdateTask = &t_aio.UpdateTaskCommand{Id: g.pick(taskPool, "tid"), ProcessId: proc, State: st, Counter: g.uni(4, "counter"), Attempt: g.uni(3, "attempt"), Ttl: g.uni(3, "ttl") * 10, ExpiresAt: g.time("exp"),
+		c.UpdateTask = &t_aio.UpdateTaskCommand{Id: g.pick(taskPool, "tid"), ProcessId: proc, State: st, Counter: g.uni(4, "counter"), Attempt: g.uni(3, "attempt"), Ttl: int(g.ttl("ttl")), ExpiresAt: g.time("exp"),
 			CompletedOn: comp, CurrentStates: g.taskStates("cur"), CurrentCounter: g.uni(3, "curcounter")}
 	case t_aio.HeartbeatTasks:
 		c.HeartbeatTasks = &t_aio.HeartbeatTasksCommand{ProcessId: g.pick(procPool, "proc"), Time: g.time("time")}
@@ -260,7 +271,7 @@ func (g G) Command() *t_aio.Command {
 	case t_aio.ReadLock:
 		c.ReadLock = &t_aio.ReadLockCommand{ResourceId: g.pick(resPool, "res")}
 	case t_aio.AcquireLock:
-		c.AcquireLock = &t_aio.AcquireLockCommand{ResourceId: g.pick(resPool, "res"), ProcessId: g.pick(procPool, "proc"), ExecutionId: g.pick(execPool, "exec"), Ttl: int64(g.uni(3, "ttl")) * 10, ExpiresAt: g.time("exp")}
+		c.AcquireLock = &t_aio.AcquireLockCommand{ResourceId: g.pick(resPool, "res"), ProcessId: g.pick(procPool, "proc"), ExecutionId: g.pick(execPool, "exec"), Ttl: g.ttl("ttl"), ExpiresAt: g.time("exp")}
 	case t_aio.ReleaseLock:
 		c.ReleaseLock = &t_aio.ReleaseLockCommand{ResourceId: g.pick(resPool, "res"), ExecutionId: g.pick(execPool, "exec")}
 	case t_aio.HeartbeatLocks:
